@@ -26,6 +26,7 @@ func nPub(value func() (any, string), mode string) func() {
 		cStr := make(chan string, 2)
 		cOther := make(chan int, 2)
 		cPtr := make(chan *int, 2)
+		cFn := make(chan func(), 2) // element type assignable from, but not identical to, a named func type
 		ctx1, cancel1 := context.WithCancel(context.Background())
 		defer cancel1()
 		ctx2, cancel2 := context.WithCancel(context.Background())
@@ -40,6 +41,7 @@ func nPub(value func() (any, string), mode string) func() {
 			regs[(i+order)%3]()
 		}
 		n.Subscribe("k", cPtr)
+		n.Subscribe("k", cFn)
 		n.Subscribe("other", cOther)
 		// which subscription contexts are cancelled: bit 0 = ctx1 (chan any), bit 1 = ctx2 (chan string)
 		mask, pre := 0, false
@@ -146,6 +148,14 @@ func nPub(value func() (any, string), mode string) func() {
 			select {
 			case x := <-cStr:
 				return x, true
+			default:
+				return nil, false
+			}
+		})
+		drainAny("fn", func() (any, bool) {
+			select {
+			case x := <-cFn:
+				return x != nil, true
 			default:
 				return nil, false
 			}
@@ -261,11 +271,14 @@ func nCancel(parent bool) func() {
 
 func init() {
 	vals := func() (any, string) {
-		switch vrt.Choose(2, 0) {
+		switch vrt.Choose(3, 0) {
 		case 0:
 			return 1, "int"
-		default:
+		case 1:
 			return "s", "string"
+		default:
+			// a NAMED func type: assignable to chan func() and to chan any, identical to neither
+			return context.CancelFunc(func() {}), "cancelfunc"
 		}
 	}
 	nilVal := func() (any, string) { return nil, "nil" }
